@@ -155,7 +155,12 @@ class G:
         if k == 5:
             return "int (*%s)(int) = f;" % v
         if k == 6 and self.typedefs:
-            if self.rng.random() < 0.5:
+            r_ = self.rng.random()
+            if r_ < 0.25:
+                # several declarators after a typedef name, with a parenthesised sizeof operand in between: the statement is first tried as an
+                # expression, inner speculations succeed, and the expression reading fails late
+                return "%s *%s[sizeof (a)], %s_f(int), (*%s_g)(%s);" % (self.ch(*self.typedefs), v, v, v, self.ch("void", "int, long", self.ch(*self.typedefs)))
+            if r_ < 0.5:
                 # a typedef name followed by any declarator, at block scope (where a statement that starts with an identifier is first tried as an expression)
                 return "%s %s;" % (self.ch(*self.typedefs), self.declarator(v))
             return "%s %s, *%s_p = 0;" % (self.ch(*self.typedefs), v, v)
